@@ -61,6 +61,7 @@ import (
 	"unicode"
 	"unicode/utf8"
 
+	"cuelang.org/go/internal/verifhook"
 	"cuelang.org/go/mod/module"
 )
 
@@ -697,6 +698,7 @@ func Unzip(dir string, m module.Version, zipFile string) (err error) {
 	if err := os.MkdirAll(dir, 0777); err != nil {
 		return err
 	}
+	verifhook.At("unzip.afterMkdir")
 	for _, zf := range z.File {
 		name := zf.Name
 		if name == "" || strings.HasSuffix(name, "/") {
@@ -710,6 +712,7 @@ func Unzip(dir string, m module.Version, zipFile string) (err error) {
 		if err != nil {
 			return err
 		}
+		verifhook.At("unzip.afterOpenFile")
 		r, err := zf.Open()
 		if err != nil {
 			w.Close()
@@ -722,9 +725,11 @@ func Unzip(dir string, m module.Version, zipFile string) (err error) {
 			w.Close()
 			return err
 		}
+		verifhook.At("unzip.afterCopy")
 		if err := w.Close(); err != nil {
 			return err
 		}
+		verifhook.At("unzip.afterFileClose")
 		if lr.N <= 0 {
 			return fmt.Errorf("uncompressed size of file %s is larger than declared size (%d bytes)", zf.Name, zf.UncompressedSize64)
 		}
